@@ -91,24 +91,19 @@ class GotranPythonCodePrinter(PythonCodePrinter):
 
         return "".join(result)
 
-    def _print_And(self, expr):
-        if len(expr.args) == 2:
-            value = f"numpy.logical_and({self._print(expr.args[0])}, {self._print(expr.args[1])})"
-        else:
-            args = ", ".join(self._print(arg) for arg in expr.args)
-            value = f"numpy.logical_and.reduce(({args}))"
-
+    def _print_logical(self, func: str, args) -> str:
+        # Nest the binary function. The reduce method of the ufunc would need an array
+        # (jax does not accept a tuple, and the operands can have different shapes)
+        value = self._print(args[-1])
+        for arg in reversed(args[:-1]):
+            value = f"numpy.{func}({self._print(arg)}, {value})"
         return value
+
+    def _print_And(self, expr):
+        return self._print_logical("logical_and", expr.args)
 
     def _print_Or(self, expr):
-        # value = super()._print_Or(expr)
-        if len(expr.args) == 2:
-            value = f"numpy.logical_or({self._print(expr.args[0])}, {self._print(expr.args[1])})"
-        else:
-            args = ", ".join(self._print(arg) for arg in expr.args)
-            value = f"numpy.logical_or.reduce(({args}))"
-
-        return value
+        return self._print_logical("logical_or", expr.args)
 
     # def _print_Equality(self, expr):
     #     lhs, rhs = expr.args
